@@ -36,7 +36,7 @@ THEOREMS = [
 LEAN_MODULES = ["PorepyVerif.C37.Props"]
 AUDIT = "PorepyVerif/C37/Audit.lean"
 DRIVER = "PorepyVerif/C37/Driver.lean"
-N = {"quick": 80, "thorough": 1000}
+N = {"quick": 80, "thorough": 450}
 TOL = 1e-9
 RULE = ("a case = 1-8 diagonal blocks of sizes 1-6 (1x1 blocks frequent; thorough: up to 14 blocks); valid cases are STRATIFIED: the 16 "
         "combinations of (csr|csc storage of the block-diagonal matrix) x (uniform|non-uniform block sizes) x (all blocks full|some zero "
@@ -100,7 +100,7 @@ EXPLANATION = (
     "components by an independent union-find, residual of the permuted inverter). Findings of this check (stored zeros outside the block pattern and duplicate stored entries broke the inverters) were repaired in "
     "/repo (fix: block-diagonal inversion mishandled explicitly stored zeros and duplicate entries); the model uses value semantics.")
 ASSUMPTIONS = ["block values are exactly representable in binary64 and well conditioned (row-wise diagonally dominant up to a row permutation), so that the LAPACK result is within 1e-9 of the exact rational inverse",
-               "singular malformed blocks are singular in a way LAPACK detects exactly (zero row, zero column, duplicated row)"]
+               "singular malformed blocks with a zero row or a zero column are detected exactly by LAPACK (the zero line stays exactly zero under any order of the updates); a duplicated row is NOT (blocked elimination): there only the permutation search is compared"]
 
 _warm = {"done": False}
 _flags = []  # side-effect observations of the current case (inputs modified, repeated call differs); read by the oracle
@@ -828,6 +828,13 @@ def compare(impl, model, case):
         bad = [k for k in ("numba", "perminv_found", "perminv_given") if isinstance(impl.get(k), dict) and impl[k].get("err") == "CRASH"]
         if bad:
             return f"{bad[0]}: interpreter crashed"
+        if case.get("singular_how") == "dup_row":
+            # a duplicated row is singular in exact arithmetic, but blocked LAPACK elimination does not keep the two rows bitwise
+            # equal, so numpy may find a pivot of size 1e-16 and return numbers instead of raising (corpus case 07).  The premise
+            # "nonsingular" fails and the outcome is rounding dependent: the python path may only raise LinAlgError or return.
+            if isinstance(impl.get("python"), dict) and impl["python"].get("err") not in (None, "LinAlgError"):
+                return f".python: {impl['python']} on an exactly singular block"
+            keys = ("perm",)
         return deep_compare({k: impl.get(k) for k in keys}, {k: model.get(k) for k in keys}, tol=TOL)
     return deep_compare(impl, model, tol=TOL)
 
@@ -1067,6 +1074,8 @@ def stats(cases, impl_outs):
             for k in ("numba", "perminv_given"):
                 v = o.get(k) or {}
                 nbs[f"{k}:{v.get('err', 'returns-numbers-silently')}"] += 1
+            if c.get("singular_how") == "dup_row":
+                nbs["python_on_dup_row:" + (o.get("python") or {}).get("err", "returns-numbers")] += 1
     strata, strata_canon = Counter(), Counter()
     for c in cases:
         if c.get("kind") in ("valid", "dup_entries", "stored_zeros_offblock") and c.get("sizes"):
